@@ -319,9 +319,11 @@ def run_property(prop, tier, seed):
             'rustc nightly front-end + MIR construction (facts are read from the compiler, opt-level 0)',
             'grmfacts driver (/verif/driver) and rules/mirlib.py'],
         'explanation': meta.get('explanation', ''),
-        'rule': meta.get('rule', 'one obligation per rule instance found in the MIR of the current tree'),
+        'rule': meta.get('rule', 'one obligation per rule instance found in the MIR of the current tree (a call site, loop, field, table row, '
+                                 'path set ...); distinct = distinct instance keys; non-trivial = anchored at a source location of /repo '
+                                 '(summary instances such as "none of the N sites ..." and liveness controls are evaluated but not counted)'),
         'evaluations': len(res.instances),
-        'distinct_nontrivial': len({i['key'] for i in res.instances}),
+        'distinct_nontrivial': len({i['key'] for i in res.instances if i.get('loc') and i['rule'] != 'control'}),
         'samples': [{'rule': i['rule'], 'key': i['key'], 'loc': i['loc'], 'verdict': i['verdict'], 'msg': i['msg']}
                     for i in res.instances][:400],
         'crates_analysed': sorted(facts.crates_loaded()),
